@@ -26,7 +26,7 @@ import (
 )
 
 type c13Case struct {
-	Src    map[string][]byte `json:"files"` // relative to the project dir "proj"; entry is main.fer
+	Src    map[string][]byte `json:"files"`  // relative to the project dir "proj"; entry is main.fer
 	Target string            `json:"target"` // check | wasm | native
 	Kind   string            `json:"kind"`
 }
@@ -491,8 +491,8 @@ func c13Check(env *core.Env, ci any) (res core.Result) {
 
 func init() {
 	core.Register(&core.Prop{
-		ID: "C13",
-		Rule: "rapid-generated inputs: arbitrary bytes / weighted character text (<=300 B), token soup over Ferret's token alphabet (<=60 tokens), every .fer file of the repository (<=6 KiB) plus 4 built-in programs damaged by 1-4 mutations (truncate at token/byte, delete, duplicate, swap, replace, insert, bracket flip, window reversal, glue), and 2-4 file projects with self / cyclic / missing / malformed / late / duplicate imports and missing files; x target in {type-check, wasm, native}. Oracle per compilation: no internal crash, terminates in 20 s, exit 0 <=> no error diagnostic, failure => >=1 error diagnostic located inside an input file (line/column inside the text), no artifact after failure, artifact after success. non-trivial = >=5 tokens and the input gets past the lexer (accepted, or an error diagnostic without an L-code); distinct = hash of (files, target)",
+		ID:    "C13",
+		Rule:  "rapid-generated inputs: arbitrary bytes / weighted character text (<=300 B), token soup over Ferret's token alphabet (<=60 tokens), every .fer file of the repository (<=6 KiB) plus 4 built-in programs damaged by 1-4 mutations (truncate at token/byte, delete, duplicate, swap, replace, insert, bracket flip, window reversal, glue), and 2-4 file projects with self / cyclic / missing / malformed / late / duplicate imports and missing files; x target in {type-check, wasm, native}. Oracle per compilation: no internal crash, terminates in 20 s, exit 0 <=> no error diagnostic, failure => >=1 error diagnostic located inside an input file (line/column inside the text), no artifact after failure, artifact after success. non-trivial = >=5 tokens and the input gets past the lexer (accepted, or an error diagnostic without an L-code); distinct = hash of (files, target)",
 		Gen:   c13Gen,
 		New:   func() any { return &c13Case{} },
 		Check: c13Check,
